@@ -161,7 +161,7 @@ def run_group(ws: str, package: str, flags: list, harnesses: list, jobs: int, lo
     out_json = os.path.join(log_dir, f"{tag}.json")
     log = os.path.join(log_dir, f"{tag}.log")
     tmax = max(int(h["timeout"]) for h in harnesses)
-    cmd = ["cargo", "kani", "-p", package] + flags + ["-Z", "function-contracts", "-Z", "stubbing", "-Z", "unstable-options"]
+    cmd = ["cargo", "kani", "-p", package] + flags + ["-Z", "function-contracts", "-Z", "stubbing", "-Z", "unstable-options", "--no-assert-contracts"]
     for z in extra_z:
         cmd += ["-Z", z]
     for h in harnesses:
@@ -237,43 +237,37 @@ def classify(hres: dict, h: dict):
     return "violation", "; ".join(f"{(f.get('desc') or '')[:160]} @ {((f.get('loc') or {}).get('file') or '').split('/')[-1]}:{(f.get('loc') or {}).get('line')}" for f in real[:4])
 
 
-def playback(ws: str, package: str, flags: list, hname: str, log_dir: str, timeout: int = 1800):
-    """re-run one failing harness with concrete playback in place, then execute the generated unit
-    test natively (cargo kani playback): the real code, compiled by rustc, on Kani's concrete values."""
+def playback(ws: str, package: str, flags: list, hname: str, log_dir: str, modfile: str, timeout: int = 1800, extra_z=()):
+    """re-run one failing harness with concrete playback (print), append the generated unit test to the
+    injected module, then execute it natively (cargo kani playback): the real code, compiled by rustc,
+    on Kani's concrete values."""
     env = dict(os.environ, CARGO_NET_OFFLINE="true")
     log1 = os.path.join(log_dir, f"playback-gen-{hname}.log")
-    cmd = ["cargo", "kani", "-p", package] + flags + ["-Z", "function-contracts", "-Z", "stubbing", "-Z", "concrete-playback",
-                                                        "--concrete-playback=inplace", "--harness", hname]
+    cmd = ["cargo", "kani", "-p", package] + flags + ["-Z", "function-contracts", "-Z", "stubbing", "-Z", "concrete-playback", "--no-assert-contracts",
+                                                        "--concrete-playback=print", "--harness", hname]
+    for z in extra_z:
+        cmd += ["-Z", z]
     try:
         with open(log1, "w") as lf:
             subprocess.run(cmd, cwd=ws, env=env, stdout=lf, stderr=subprocess.STDOUT, timeout=timeout)
     except subprocess.TimeoutExpired:
         return dict(generated=False, reason="playback generation timed out")
     txt = open(log1, errors="replace").read()
-    tests = re.findall(r"kani_concrete_playback_" + re.escape(hname) + r"_\d+", txt)
-    tests = sorted(set(tests))
-    if not tests:
+    m = re.search(r"```\s*\n(.*?#\[test\].*?)```", txt, re.S)
+    if not m:
         return dict(generated=False, reason="kani produced no concrete playback test", log_tail=txt[-1500:])
-    # collect the generated test source
-    srcs = []
-    for root, _, files in os.walk(os.path.join(ws)):
-        if "/target" in root:
-            continue
-        for fn in files:
-            if fn.endswith(".rs"):
-                p = os.path.join(root, fn)
-                try:
-                    t = open(p, errors="replace").read()
-                except Exception:
-                    continue
-                if tests[0] in t:
-                    k = t.find("fn " + tests[0])
-                    a = t.rfind("#[test]", 0, k)
-                    e = t.find("\n    }\n", k)
-                    srcs.append(t[a:e + 7])
+    test_src = m.group(1)
+    tm = re.search(r"fn (kani_concrete_playback_\w+)", test_src)
+    test = tm.group(1)
+    path = os.path.join(ws, modfile)
+    src = open(path).read()
+    k = src.rstrip().rfind("}")
+    src = src[:k] + "\n" + test_src + "\n" + src[k:]
+    with open(path, "w") as fh:
+        fh.write(src)
     log2 = os.path.join(log_dir, f"playback-run-{hname}.log")
     cmd2 = ["cargo", "kani", "playback", "-p", package] + [f for f in flags if f in ("--lib", "--no-default-features")] + \
-           ["-Z", "concrete-playback", "--", tests[0]]
+           ["-Z", "concrete-playback", "--", test]
     try:
         with open(log2, "w") as lf:
             p = subprocess.run(cmd2, cwd=ws, env=dict(env, RUST_BACKTRACE="0"), stdout=lf, stderr=subprocess.STDOUT, timeout=timeout)
@@ -281,7 +275,8 @@ def playback(ws: str, package: str, flags: list, hname: str, log_dir: str, timeo
     except subprocess.TimeoutExpired:
         rc = -9
     out = open(log2, errors="replace").read()
-    m = re.search(r"panicked at [^\n]*\n[^\n]*", out)
-    confirmed = rc != 0 and ("panicked at" in out or "test result: FAILED" in out)
-    return dict(generated=True, test=tests[0], test_source=srcs[0] if srcs else "", native_rc=rc, confirmed=confirmed,
-                native_panic=m.group(0) if m else "", native_tail=out[-1200:], cmd=" ".join(cmd2))
+    pm = re.search(r"panicked at [^\n]*\n[^\n]*", out)
+    ran = "running 1 test" in out
+    confirmed = ran and rc != 0 and ("panicked at" in out or "test result: FAILED" in out)
+    return dict(generated=True, test=test, test_source=test_src, native_ran=ran, native_rc=rc, confirmed=confirmed,
+                native_panic=pm.group(0) if pm else "", native_tail=out[-1200:], cmd=" ".join(cmd2))
